@@ -181,6 +181,9 @@ def build_files_info(files, order) -> bytes:
         elif item == "empty_file":
             body = bitvec([bool(f.get("empty_file")) for f in empties])
             out += b"\x0f" + num(len(body)) + body
+        elif item == "anti":
+            body = bitvec([bool(f.get("anti")) for f in empties])
+            out += b"\x10" + num(len(body)) + body
         elif item == "names":
             body = b"\x00" + b"".join(f["name"].encode("utf-16-le", "surrogatepass") + b"\x00\x00" for f in files)
             out += b"\x11" + num(len(body)) + body
@@ -348,6 +351,11 @@ def parse_header(b: bytes):
                 for f, bit in zip(emp, r.bits(len(emp))):
                     f["empty_file"] = bit
                 h["order"].append("empty_file")
+            elif pt == 0x10:
+                emp = [f for f in files if f["empty_stream"]]
+                for f, bit in zip(emp, r.bits(len(emp))):
+                    f["anti"] = bit
+                h["order"].append("anti")
             elif pt == 0x11:
                 assert r.u8() == 0
                 raw = r.take(end - r.p)
@@ -462,7 +470,8 @@ def roundtrip_check(data: bytes) -> None:
 # ------------------------------------------------------------------ the writer
 def write_7z(entries, folders, *, coders="lzma2", encode_header=False, gap=0, dict_size=1 << 16,
              attrs=True, mtime=False, always_nums=False, corrupt=None):
-    """entries: [{"name": str, "kind": "file" | "dir" | "empty" | "nostream", "data": bytes}]
+    """entries: [{"name": str, "kind": "file" | "dir" | "empty" | "anti" | "nostream", "data": bytes}]
+    ("anti" = anti-item: an entry without stream whose kAnti bit is set)
     folders: [[entry index, ...], ...]  (ordered partition of the "file" entries, in entry order)
     coders: one name or one per folder.  gap: junk bytes before the first pack stream (PackPos = gap).
     "nostream" entries are listed as files WITH a stream (emptyStream bit clear) but get none.
@@ -499,7 +508,8 @@ def write_7z(entries, folders, *, coders="lzma2", encode_header=False, gap=0, di
     files = []
     for e in entries:
         k = e["kind"]
-        files.append({"name": e["name"], "empty_stream": k in ("dir", "empty"), "empty_file": k == "empty",
+        files.append({"name": e["name"], "empty_stream": k in ("dir", "empty", "anti"), "empty_file": k == "empty",
+                      "anti": k == "anti",
                       "attr": (0x10 if k == "dir" else 0x20) if attrs else None,
                       "mtime": 132000000000000000 if mtime else None})
     order = []
@@ -507,6 +517,8 @@ def write_7z(entries, folders, *, coders="lzma2", encode_header=False, gap=0, di
         order.append("empty_stream")
         if any(f["empty_file"] for f in files):
             order.append("empty_file")
+        if any(f["anti"] for f in files):
+            order.append("anti")
     order.append("names")
     if mtime:
         order.append("mtime")
@@ -538,7 +550,7 @@ def self_check(data: bytes, entries=None) -> None:
     roundtrip_check(data)
     if entries is not None:
         ref = reference_extract(data)
-        want = [(e["name"], "file" if e["kind"] in ("file", "nostream") else e["kind"],
+        want = [(e["name"], "file" if e["kind"] in ("file", "nostream") else ("dir" if e["kind"] == "anti" else e["kind"]),
                  e["data"] if e["kind"] == "file" else (b"" if e["kind"] == "empty" else None)) for e in entries]
         if ref != want:
             raise AssertionError("7z writer: independent extraction differs from the entries written")
